@@ -105,6 +105,8 @@ def _run_instance(job):
         nsample = [0]
 
         def on_violation(label, vals, info):
+            if len(out["violations"]) >= opts.get("max_replays", 4):
+                return  # enough counterexamples for this instance; do not spend time replaying more
             try:
                 rep, text = mod.replay(inst, label, vals, info)
             except BaseException as e:  # noqa
